@@ -2701,11 +2701,181 @@ def _derived(at):
 
 
 def _tiling(ctx, E, q, seq, fn):
-    """each path writes consecutive slices seq[a:b] whose bounds chain: first a = 0, next a = previous b (through loops by induction on the
-    loop counter)"""
+    """each path writes consecutive slices seq[a:b] whose bounds chain: first a = 0, next a = previous b.  Loops are handled by induction over
+    their passes, one arm of the loop body at a time: the position a pass starts at is a function pos(c) of one loop variable (the position itself,
+    `n - left`, a line number times the line length, ...); pos(c before the loop) must be what has been written so far; every arm that goes on
+    to a next pass must stop where pos(c after the pass) says that pass starts; after the loop the position is where the last pass stopped (the
+    arm that left by `break`, pos(c at the exit) of a `while`, the pass of the last value of a range)."""
     N = lin(("len", seq))
     v = V()
     npaths = 0
+
+    def rec_of(e):
+        return _int_records(E, e, seq, N) if e.kind in ("format", "call") else None
+
+    def walk(evs, cur, wp, s):
+        """the position after the events `evs` (all inside the loops `cur`), starting from wp; None when something was not understood (reported)"""
+        i = 0
+        pending = {}
+        while i < len(evs):
+            e = evs[i]
+            if e.loops[:len(cur)] != cur:
+                i += 1
+                continue
+            if e.loops == cur:
+                if e.kind == "loopexit" and e.d["loop"] in pending:
+                    wp = pending.pop(e.d["loop"])(e)
+                    if wp is None:
+                        return None
+                else:
+                    rec = rec_of(e)
+                    if rec is not None:
+                        if "unknown" in rec:
+                            v.unknown({"values written": rec["unknown"]}, e.node)
+                            return None
+                        r, w = _differs(rec["a"] - wp, e.facts)
+                        if r is True:
+                            v.bad({"slice starts at": show(rec["a"]), "written up to": show(wp), "differ for": w}, e.node)
+                        elif r is None:
+                            v.unknown({"slice starts at": show(rec["a"]), "written up to": show(wp)}, e.node)
+                        wp = rec["b"]
+                i += 1
+                continue
+            L = e.loops[len(cur)]
+            grp = [x for x in evs[i:] if len(x.loops) > len(cur) and x.loops[:len(cur)] == cur and x.loops[len(cur)] == L]
+            head = next((x for x in grp if x.kind in ("for", "while") and x.d["loop"] == L), None)
+            res = loop(head, grp, cur + (L,), wp, s) if head is not None else None
+            if res is None:
+                if head is None and not any(rec_of(x) is not None for x in grp):
+                    res = (wp, None)              # a loop (a comprehension ...) that writes nothing of the sequence
+                else:
+                    if head is None:
+                        v.unknown({"writes of the sequence in a loop whose head is not on this path": L}, grp[0].node)
+                    return None
+            wp, after = res
+            if after is not None:
+                pending[L] = after
+            seen = {id(x) for x in grp}
+            i += 1
+            while i < len(evs) and id(evs[i]) in seen:
+                i += 1
+        return wp
+
+    def arms_of(grp, L, s):
+        """the arms of the loop body: (how the arm ends: its `loopend` event, or the `loopexit` by break of this path, events of the arm)"""
+        out = []
+        for end in [x for x in grp if x.kind == "loopend" and x.d["loop"] == L]:
+            fs = set(end.facts)
+            out.append((end, [x for x in grp if x.seq < end.seq and set(x.facts) <= fs and x.kind not in ("for", "while") or (x.kind in ("for", "while") and x.d["loop"] != L
+                                                                                                                       and x.seq < end.seq and set(x.facts) <= fs)]))
+        return out
+
+    def loop(head, grp, inner, wp, s):
+        """(position after the loop when nothing more is known, function of the loop's exit event giving the position) or None (reported)"""
+        L = head.d["loop"]
+        writes = [x for x in grp if rec_of(x) is not None]
+        if not writes:
+            return wp, None
+        recs = [rec_of(x) for x in writes]
+        if any("unknown" in r_ for r_ in recs):
+            v.unknown({"values written": next(r_["unknown"] for r_ in recs if "unknown" in r_)}, head.node)
+            return None
+        first = [r_ for x, r_ in zip(writes, recs)]
+        # ---- the position function
+        if head.kind == "while":
+            a0 = recs[0]["a"]
+            cand = None
+            for nm, x in sorted(head.d["env"].items()):
+                symc = x if isinstance(x, tuple) and x[:1] == ("sym",) else None
+                pre_ = head.d["pre"].get(nm)
+                if symc is None or not (isinstance(pre_, Lin) or (isinstance(pre_, tuple) and pre_[:1] == ("sym",))) or not M.mentions(a0, symc):
+                    continue
+                if any(M.mentions(a0, y) for nm2, y in head.d["env"].items() if nm2 != nm and isinstance(y, tuple) and y[:1] == ("sym",)):
+                    continue
+                if _differs(lin(M.subst(a0, symc, lin(pre_))) - wp, head.facts)[0] is False:
+                    cand = (nm, symc, a0)
+                    break
+            if cand is None:
+                v.unknown({"loop": show(head.d["test"])[:120], "position written first in a pass": show(a0), "written before the loop up to": show(wp)}, head.node)
+                return None
+            nm, symc, a0 = cand
+            pos_head = a0
+            nxt_of = lambda end: lin(M.subst(a0, symc, lin(end.d["env"][nm])))
+            extra = lambda end: end.facts
+        else:
+            it = head.d["iter"]
+            if not (isinstance(it, tuple) and it[:1] == ("range",) and isinstance(head.d["target"], Lin)):
+                v.unknown({"loop": show(it)[:160]}, head.node)
+                return None
+            tsym = M.lin(head.d["target"]).atoms()
+            tat = tsym[0] if len(tsym) == 1 and head.d["target"] == lin(tsym[0]) else None
+            starts = {r_["a"] for r_ in recs if any(M.mentions(r_["a"], t_) for t_ in tsym)} or {recs[0]["a"]}
+            a0 = recs[0]["a"]
+            stride = a0.t.get(tat, 0) if tat is not None else None
+            if stride is None or stride.denominator != 1 or stride < 1:
+                v.unknown({"loop": show(it), "position written first in a pass": show(a0)}, head.node)
+                return None
+            off = a0 - head.d["target"].scale(stride)
+            if any(M.mentions(at, t_) for at in off.t for t_ in tsym):
+                v.unknown({"loop": show(it), "position written first in a pass": show(a0)}, head.node)
+                return None
+            pit = (it[0], lin(it[1]).scale(stride) + off, lin(it[2]).scale(stride) + off, lin(it[3]).scale(stride))
+            r, w = _differs(lin(pit[1]) - wp, head.facts)
+            if r is True:
+                v.bad({"the loop starts at": show(pit[1]), "written up to": show(wp), "differ for": w}, head.node)
+            elif r is None:
+                v.unknown({"the loop starts at": show(pit[1]), "written up to": show(wp)}, head.node)
+            pos_head = a0
+            nxt_of = lambda end: a0 + pit[3]
+
+            def extra(end):
+                if M.is_int_const(lin(pit[3])) and M.ival(lin(pit[3])) > 1 and M._divisible(lin(pit[2]) - (a0 + pit[3]), M.ival(lin(pit[3]))):
+                    return end.facts + ((("cmp", "GtE", lin(pit[2]) - (a0 + pit[3]), lin(pit[3])), True),)
+                return end.facts + ((("not", ("cmp", "GtE", a0 + pit[3], lin(pit[2]))), True),)
+        # ---- every arm that goes on to a next pass
+        pass_wp = []
+        for end, arm in arms_of(grp, L, s):
+            wpa = walk(sorted(arm, key=lambda x: x.seq), inner, pos_head, s)
+            if wpa is None:
+                return None
+            wpa = M.mk_min([wpa, N], end.facts) if isinstance(wpa, Lin) else wpa
+            want = nxt_of(end)
+            r, w = _differs(wpa - want, extra(end))
+            if r is True:
+                v.bad({"one pass writes up to": show(wpa), "the next pass starts at": show(want), "differ for": w}, end.node)
+            elif r is None:
+                v.unknown({"one pass writes up to": show(wpa), "the next pass starts at": show(want)}, end.node)
+            pass_wp.append(wpa)
+
+        # ---- after the loop
+        def after(x):
+            if x.d.get("by") == "break":
+                fs = set(x.facts)
+                arm = [y for y in grp if set(y.facts) <= fs and y.kind not in ("loopend",) and not (y.kind in ("for", "while") and y.d["loop"] == L)]
+                return walk(sorted(arm, key=lambda y: y.seq), inner, pos_head, s)
+            if head.kind == "while":
+                return lin(M.subst(a0, symc, lin(x.d["env"][nm])))
+            if x.d.get("ran") is False:
+                return wp
+            if len(pass_wp) == 1 and isinstance(pass_wp[0], Lin):
+                oit = head.d["iter"]
+                lo_t, hi_t, k_t = lin(oit[1]), lin(oit[2]), M.ival(oit[3])
+                last_t = lo_t + M.floordiv(hi_t - 1 - lo_t, k_t).scale(k_t)
+                aft = M.subst(pass_wp[0], tat, last_t)
+                return M.mk_min([aft, N], x.facts) if isinstance(aft, Lin) else None
+            return None
+        default = wp
+        if head.kind == "for" and len(pass_wp) == 1 and isinstance(pass_wp[0], Lin):
+            # without an exit event: the passes cover [lo, min(hi, length)) when the last one is clamped there; else where the pass of the last value stops
+            oit = head.d["iter"]
+            lo_t, hi_t, k_t = lin(oit[1]), lin(oit[2]), M.ival(oit[3])
+            last_t = lo_t + M.floordiv(hi_t - 1 - lo_t, k_t).scale(k_t)
+            aft = M.subst(pass_wp[0], tat, last_t)
+            aft = M.mk_min([aft, N], head.facts) if isinstance(aft, Lin) else aft
+            whole = M.mk_min([lin(pit[2]), N], head.facts)
+            default = whole if isinstance(aft, Lin) and _differs(aft - whole, head.facts)[0] is False else aft
+        return default, after
+
     for s in E.finals:
         if s.status not in ("run", "return"):
             continue
@@ -2718,131 +2888,9 @@ def _tiling(ctx, E, q, seq, fn):
         if strange:
             v.unknown({"a write of the sequence this rule does not understand": show(strange[0].d["args"][0])[:200]}, strange[0].node)
             continue
-        wp = Lin()          # written up to (exclusive)
-        loop_entry = {}
-        for_loops = {}
-        loop_info = {}
-        for e in s.events:
-            if e.kind == "while":
-                # induction over the passes: the position the writes of a pass start at is a function pos(c) of one loop variable c (the position itself,
-                # `n - left` for a count of what is left, ...); base case pos(c before the loop) = what has been written so far; a pass must end
-                # where pos(c after the pass) says the next one starts; after the loop the position is pos(c at the exit)
-                lid = e.d["loop"]
-                inside = [_int_records(E, x, seq, N) for x in s.events if lid in x.loops and x.kind in ("format", "call")]
-                inside = [x for x in inside if x is not None]
-                cands = []
-                if inside and "unknown" not in inside[0]:
-                    a0 = inside[0]["a"]
-                    for nm, x in sorted(e.d["env"].items()):
-                        symc = x if isinstance(x, tuple) and x[:1] == ("sym",) else None
-                        pre_ = e.d["pre"].get(nm)
-                        if symc is None or not (isinstance(pre_, Lin) or (isinstance(pre_, tuple) and pre_[:1] == ("sym",))) or not M.mentions(a0, symc):
-                            continue
-                        if any(M.mentions(a0, y) for nm2, y in e.d["env"].items() if nm2 != nm and isinstance(y, tuple) and y[:1] == ("sym",)):
-                            continue            # the position depends on several loop variables
-                        if _differs(lin(M.subst(a0, symc, lin(pre_))) - wp, e.facts)[0] is False:
-                            cands.append((nm, symc, a0))
-                if cands:
-                    nm, symc, a0 = cands[0]
-                    loop_entry[lid] = (nm, symc, a0)
-                    wp = a0
-                elif inside or any(x.kind == "call" and x.d["attr"] == "write" and lid in x.loops for x in s.events):
-                    v.unknown({"loop": show(e.d["test"])[:120], "position written first in a pass": show(inside[0].get("a")) if inside and "a" in inside[0] else None,
-                               "written before the loop up to": show(wp)}, e.node)
-                    wp = None
-                    break
-            elif e.kind == "for" and isinstance(e.d["iter"], tuple) and e.d["iter"][:1] == ("range",) and isinstance(e.d["target"], Lin):
-                # for k in range(lo, N, step): each pass must write [k, min(k + step, N))
-                it = e.d["iter"]
-                # only a loop whose variable (plus a fixed offset: a position counted from the start of a remainder) is where the writes inside start
-                # is a loop over positions of the sequence
-                inside = [_int_records(E, x, seq, N) for x in s.events if e.d["loop"] in x.loops and x.kind in ("format", "call")]
-                inside = [x for x in inside if x is not None]
-                tsym = M.lin(e.d["target"]).atoms()
-                tat = tsym[0] if len(tsym) == 1 and e.d["target"] == lin(tsym[0]) else None
-                # position = stride * variable + offset  (a chunk number times the chunk length, ...)
-                strides = {x["a"].t.get(tat, 0) for x in inside if "unknown" not in x} if tat is not None else set()
-                stride = next(iter(strides)) if len(strides) == 1 else None
-                ok_stride = stride is not None and stride.denominator == 1 and stride >= 1
-                offs = {x["a"] - e.d["target"].scale(stride) for x in inside if "unknown" not in x} if ok_stride else set()
-                if not inside or any("unknown" in x for x in inside) or len(offs) != 1 or any(M.mentions(at, t_) for o_ in offs for at in o_.t for t_ in tsym):
-                    if inside or any(x.kind == "call" and x.d["attr"] == "write" and e.d["loop"] in x.loops for x in s.events):
-                        v.unknown({"loop": show(it), "writes inside": [x.get("unknown") or show(x["a"]) for x in inside][:3]}, e.node)
-                        wp = None
-                        break
-                    continue
-                off = next(iter(offs))
-                it = (it[0], lin(it[1]).scale(stride) + off, lin(it[2]).scale(stride) + off, lin(it[3]).scale(stride))
-                r, w = _differs(lin(it[1]) - wp, e.facts)
-                if r is True:
-                    v.bad({"the loop starts at": show(it[1]), "written up to": show(wp), "differ for": w}, e.node)
-                elif r is None:
-                    v.unknown({"the loop starts at": show(it[1]), "written up to": show(wp)}, e.node)
-                for_loops[e.d["loop"]] = (e.d["target"].scale(stride) + off, it)
-                loop_info[e.d["loop"]] = {"before": wp, "target": tat, "iter": e.d["iter"], "facts": e.facts}
-                wp = e.d["target"].scale(stride) + off
-            elif e.kind == "loopend" and e.d["loop"] in for_loops:
-                k_, it = for_loops[e.d["loop"]]
-                info = loop_info[e.d["loop"]]
-                # if there is a next pass it starts one stride on: that must be where this pass stopped
-                want = k_ + it[3]
-                wp = M.mk_min([wp, N], e.facts)
-                if M.is_int_const(lin(it[3])) and M.ival(lin(it[3])) > 1 and M._divisible(lin(it[2]) - want, M.ival(lin(it[3]))):
-                    # the positions and the end of the range are congruent modulo the stride: a next pass leaves a whole stride
-                    nxt = e.facts + ((("cmp", "GtE", lin(it[2]) - want, lin(it[3])), True),)
-                else:
-                    nxt = e.facts + ((("not", ("cmp", "GtE", want, lin(it[2]))), True),)
-                r, w = _differs(wp - want, nxt)
-                if r is True:
-                    v.bad({"one pass writes up to": show(wp), "the next pass starts at": show(want), "differ for": w}, e.node)
-                elif r is None:
-                    v.unknown({"one pass writes up to": show(wp), "the next pass starts at": show(want)}, e.node)
-                info["pass"] = wp
-                # after the loop: where the last pass stopped - the pass of the last value of the range, lo + k * floor((hi - 1 - lo) / k)
-                oit = info["iter"]
-                lo_t, hi_t, k_t = lin(oit[1]), lin(oit[2]), M.ival(oit[3])
-                last_t = lo_t + M.floordiv(hi_t - 1 - lo_t, k_t).scale(k_t)
-                ran = info["facts"]
-                after = M.subst(wp, info["target"], last_t)
-                after = M.mk_min([after, N], ran) if isinstance(after, Lin) else after
-                info["after"] = after
-                whole = M.mk_min([lin(it[2]), N], e.facts)           # the passes cover [lo, min(hi, length)) when the last one is clamped there
-                r, w = _differs(after - whole, ran)
-                wp = whole if r is False else after
-                info["exact"] = r is False
-            elif e.kind == "loopend" and e.d["loop"] in loop_entry:
-                nm, symc, a0 = loop_entry[e.d["loop"]]
-                nxt_ = lin(M.subst(a0, symc, lin(e.d["env"][nm])))
-                r, w = _differs(nxt_ - wp, e.facts)
-                if r is True:
-                    v.bad({"the next pass starts at": show(nxt_), "written up to": show(wp), "differ for": w}, e.node)
-                elif r is None:
-                    v.unknown({"the next pass starts at": show(nxt_), "written up to": show(wp)}, e.node)
-            elif e.kind == "loopexit" and e.d["loop"] in loop_entry:
-                nm, symc, a0 = loop_entry[e.d["loop"]]
-                wp = lin(M.subst(a0, symc, lin(e.d["env"][nm])))
-            elif e.kind == "loopexit" and e.d["loop"] in loop_info and "ran" in e.d:
-                info = loop_info[e.d["loop"]]
-                if e.d["ran"] is False:
-                    wp = info["before"]                  # the range was empty: nothing was written by the loop
-                elif "after" in info:
-                    wp = info["after"]
-            elif e.kind in ("format", "call"):
-                rec = _int_records(E, e, seq, N)
-                if rec is None:
-                    continue
-                if "unknown" in rec:
-                    v.unknown({"values written": rec["unknown"]}, e.node)
-                    continue
-                a, b = rec["a"], rec["b"]
-                r, w = _differs(a - wp, e.facts)
-                if r is True:
-                    v.bad({"slice starts at": show(a), "written up to": show(wp), "differ for": w}, e.node)
-                elif r is None:
-                    v.unknown({"slice starts at": show(a), "written up to": show(wp)}, e.node)
-                wp = b
+        wp = walk(list(s.events), (), Lin(), s)
         # a path that stops early must have nothing left:  facts imply wp >= N
-        if wp is not None and wp != N:
+        if wp is not None and isinstance(wp, Lin) and wp != N:
             lo, hi = M.bounds(wp - N, s.facts)
             if not (lo is not None and lo >= 0):
                 syms = M.free_symbols(wp - N)
